@@ -129,6 +129,41 @@ UNITS["rpc_view"] = {
     "timeout_quick": 900,
 }
 
+UNITS["actor"] = {
+    "kind": "kani",
+    "crate": "harness/actor",
+    "harness_mod": "actor::verif_contracts",
+    "kani_flags": [],
+    "sources": ["datacake-eventual-consistency/src/keyspace/actor.rs", "datacake-crdt/src/timestamp.rs"],
+    "slice": [{
+        "mode": "items", "src": "datacake-eventual-consistency/src/keyspace/actor.rs", "out": "actor.rs",
+        "prelude": "/verif/harness/actor/src/prelude.rs",
+        "drop_attrs": ["puppet_actor", "puppet"],
+        "deasync": True,
+        "items": [
+            {"kind": "struct", "name": "KeyspaceActor"},
+            {"kind": "impl_fns", "name": "KeyspaceActor", "header": r"impl<S> KeyspaceActor<S>\s+where\s+S: Storage,\s*\{",
+             "fns": ["inc_change_timestamp", "on_set", "on_multi_set", "on_del", "on_multi_del", "on_purge_tombstones", "on_diff"]},
+        ],
+        "append": ['#[cfg(kani)] #[path = "/verif/harness/actor/src/contracts.rs"] mod verif_contracts;'],
+    }],
+    "extraction": "items `struct KeyspaceActor` and the fns inc_change_timestamp, on_set, on_multi_set, on_del, on_multi_del, on_purge_tombstones, on_diff of "
+                  "`impl<S> KeyspaceActor<S>` cut verbatim and pasted after harness/actor/src/prelude.rs; dropped attributes: #[puppet_actor], #[puppet]; "
+                  "the `async` keyword and every `.await` token are deleted (stand-in storage/clock are synchronous and always ready; a poll loop over the "
+                  "real state machines exhausts CBMC: 26 M variables vs 0.35 M)",
+    "functions": ["KeyspaceActor::on_set", "KeyspaceActor::on_del", "KeyspaceActor::on_multi_set", "KeyspaceActor::on_multi_del",
+                  "KeyspaceActor::on_purge_tombstones", "KeyspaceActor::inc_change_timestamp"],
+    "assumptions": [
+        "the ORSWOT set is linked by contract (contracts/specset.rs = kernels over vcoll maps); that the real orswot.rs meets those contracts is obligations os_* of the same check",
+        "the ghost store IS the Storage contract: a single call may fail having written nothing; a bulk call may fail with an arbitrary subset written = the subset it reports",
+        "Document/DocumentMetadata/message structs mirror the field layout of core.rs/messages.rs; SmallVec/Vec -> vcoll::VVec; Arc/AtomicCell/Clock are trivial stand-ins",
+        "every await is on a stand-in that is immediately ready, so `async`/`.await` are de-sugared away by the slicer: task cancellation between await points is NOT covered; proc-macro generated actor plumbing (puppet) is not verified",
+        "distinct timestamps: an incoming put does not carry exactly the stamp of a tombstone already held for that id",
+    ],
+    "env": {"VCOLL_CAP": "3"},
+    "timeout_quick": 1200,
+}
+
 import copy
 UNITS["orswot_b"] = copy.deepcopy(UNITS["orswot"])
 UNITS["orswot_b"].update({
@@ -248,6 +283,19 @@ for _sz in (8, 24):
        f"Archived size {_sz}: to_view_bytes == body || le32(crc(body)) for any serialiser output; using(to_view_bytes(v)) is Ok; serialisation failure is reported",
        bound="frame length <= 40 bytes")
 
+# ---- unit actor
+_k("ac_on_set", "actor", "P", "KeyspaceActor::on_set",
+   "arbitrary unbounded set+store agreeing at k and a bystander, any message, any storage outcome: afterwards they agree at k; bystander untouched; "
+   "stale => no-op; storage error => applied to neither; Ok => applied to both")
+_k("ac_on_del", "actor", "P", "KeyspaceActor::on_del", "same contract for deletes")
+_k("ac_on_multi_set", "actor", "B", "KeyspaceActor::on_multi_set",
+   "batch <= 2 distinct ids, arbitrary reported-success subset: agreement at every id and a bystander; only documents reported as written become visible",
+   bound="batch <= 2, distinct ids")
+_k("ac_on_multi_del", "actor", "B", "KeyspaceActor::on_multi_del", "same contract for bulk deletes", bound="batch <= 2, distinct ids")
+_k("ac_on_purge", "actor", "B", "KeyspaceActor::on_purge_tombstones",
+   "<= 2 tombstones: a tombstone leaves the set iff it left storage (failed removals re-added); only tombstones older than the cut-off; live documents untouched",
+   bound="|dead| <= 2")
+
 # ---- Verus lemma layer (each file = shared exec kernels proved equal to spec kernels + lemmas)
 _v("lemmas_lww", "lemmas/lww.rs", "kernels k_insert/k_delete/k_cut/k_before/k_will_apply/k_lacks/k_max_stamp/k_safe; lemma layer",
    "exec kernel == spec kernel for all 8 kernels; lemma_fold_lww: any arrival order of accepted ops with distinct stamps ends at "
@@ -283,6 +331,11 @@ PROPERTIES = {
     },
     "C08": {
         "obligations": ["os_purge_all", "os_raw_tombstones", "os_before", "os_cutoff_monotone", "os_insert_contract", "os_delete_contract", "os_will_apply", "lemmas_purge"],
+        "level": "proof", "explanation": "", "assumptions": [],
+    },
+    "C02": {
+        "obligations": ["ac_on_set", "ac_on_del", "ac_on_multi_set", "ac_on_multi_del", "ac_on_purge",
+                        "os_will_apply", "os_insert_contract", "os_delete_contract", "os_purge_all", "os_raw_tombstones"],
         "level": "proof", "explanation": "", "assumptions": [],
     },
     "C12": {
